@@ -349,9 +349,9 @@ theorem takeName_sub (b n rest : Bytes) (h : takeName b = some (n, rest)) : ∀ 
       | (cases h; done)
       | (injection h with h; injection h with _ e; subst e; exact hs)
 
-theorem takeValidity_sub (b : Bytes) (v : X509.Validity) (rest : Bytes) (h : takeValidity b = some (v, rest)) :
-    ∀ x ∈ rest, x ∈ b := by
-  unfold takeValidity at h
+theorem takeValidityCivil_sub (b : Bytes) (t1 t2 : X509.Civil) (rest : Bytes)
+    (h : takeValidityCivil b = some (t1, t2, rest)) : ∀ x ∈ rest, x ∈ b := by
+  unfold takeValidityCivil at h
   cases hc : takeCons tagSeq b with
   | none => simp [hc] at h
   | some q =>
@@ -361,7 +361,7 @@ theorem takeValidity_sub (b : Bytes) (v : X509.Validity) (rest : Bytes) (h : tak
     repeat' (split at h)
     all_goals first
       | (cases h; done)
-      | (injection h with h; injection h with _ e; subst e; exact hs)
+      | (injection h with h; injection h with _ h; injection h with _ e; subst e; exact hs)
 
 theorem takePublicKey_sub (b : Bytes) (a : KeyAlg) (u : Nat) (bits rest : Bytes)
     (h : takePublicKey b = some (a, u, bits, rest)) : ∀ x ∈ rest, x ∈ b := by
@@ -418,11 +418,11 @@ theorem decodeTbs_canon (raw : Bytes) (op : Bool) (sig : Bytes) (d : Decoded) (h
                   obtain ⟨iss, r3⟩ := q4
                   have b4 := allBytes_of_sub b3 (takeName_sub _ _ _ h4)
                   simp only [h4] at h
-                  cases h5 : takeValidity r3 with
+                  cases h5 : takeValidityCivil r3 with
                   | none => simp [h5] at h
                   | some q5 =>
-                    obtain ⟨val, r4⟩ := q5
-                    have b5 := allBytes_of_sub b4 (takeValidity_sub _ _ _ h5)
+                    obtain ⟨nbc, nac, r4⟩ := q5
+                    have b5 := allBytes_of_sub b4 (takeValidityCivil_sub _ _ _ _ h5)
                     simp only [h5] at h
                     cases h6 : takeName r4 with
                     | none => simp [h6] at h
